@@ -26,7 +26,8 @@ POOL = {"A": ["MIT", "GPL-2.0", "Apache-2.0", "Nonexistent-1.0"], "B": ["0BSD", 
 
 
 def body_of(ident: str) -> str:
-    return f"Licence text of {ident}\n" * 3
+    # (real licence texts hold copyright signs, typographic quotes and accents)
+    return f"Licence text of {ident}\n" * 3 + "Copyright \u00a9 the authors \u2013 \u201cas is\u201d, na\u00efvely\n"
 
 
 def sha(b: bytes) -> str:
@@ -105,8 +106,11 @@ def run_case(case: dict) -> list:
         for k, step in enumerate(case["steps"], 1):
             del netlog[:]
             pre = snapshot(d)
-            cwd = {"root": root, "sub": root / "src", "licenses": root / "LICENSES", "outside": d}[step["cwd"]]
-            cwd.mkdir(exist_ok=True)
+            cwd = {"root": root, "sub": root / "src", "licenses": root / "LICENSES", "outside": d,
+                   "otherlicenses": d / "neighbour" / "LICENSES"}[step["cwd"]]      # the LICENSES/ of a neighbouring checkout
+            cwd.mkdir(exist_ok=True, parents=True)
+            if step["cwd"] == "otherlicenses":
+                pre = snapshot(d)
             if step["cwd"] == "licenses":
                 pre = snapshot(d)
             args = []
@@ -120,7 +124,16 @@ def run_case(case: dict) -> list:
             if step["use_source"]:
                 args += ["--source", str(srcdir / (step["source_file"] + ".txt")) if step.get("source_file") else str(srcdir)]
             args += step["given"]
-            r = core.run_reuse(args, cwd=cwd)
+            if step.get("locale_c"):
+                # a fresh interpreter whose locale is not UTF-8 (the texts it writes are UTF-8 all the same), same scripted network
+                nl = d / "netlog.txt"
+                nl.write_text("")
+                r = core.run_reuse_subprocess(args, cwd=cwd, script=str(Path(__file__).resolve().parent.parent / "stubnet_main.py"),
+                                              env=dict(core.C_LOCALE_ENV, REUSE_VERIF_NET=json.dumps(case["net"]), REUSE_VERIF_NETLOG=str(nl)))
+                netlog.extend(x for x in nl.read_text().split() if x)
+                nl.unlink()
+            else:
+                r = core.run_reuse(args, cwd=cwd)
             post = snapshot(d)
             reqs = []
             given = step["given"] if not step["all"] else step["expect_all"]
@@ -176,9 +189,10 @@ def run(ctx: core.Ctx) -> int:
             net["Nonexistent-1.0"] = "http"           # the SPDX repository has no such file
         existing = [pick[i[len("LICENSES/"):-4]] for i in g["existing"]]
         src_has = [pick["LicenseRef-r"]] if g["useSource"] and gi % 2 == 0 else []
-        mode = gi % 5
+        mode = gi % 6
         step = {"given": given, "all": False, "use_source": bool(g["useSource"]),
-                "cwd": ["root", "sub", "licenses", "outside", "root"][mode], "root_arg": mode in (3, 4)}
+                "cwd": ["root", "sub", "licenses", "outside", "root", "otherlicenses"][mode], "root_arg": mode in (3, 4, 5),
+                "locale_c": gi % 16 == 4}
         git = mode in (1, 2)                 # from a sub-directory or from LICENSES/ the root is found through the VCS
         steps = [step]
         if gi % 3 == 0:                      # a second, identical invocation: everything exists now
